@@ -396,7 +396,7 @@ theorem closeFile_text (s : St) (ho : s.isOpen = true) (hw : s.writing = true) (
   have hle : (flushBytes true (s.buf ++ [0])).2.length ≤ 255 := flush_rest_le _ _ (Nat.le_refl _)
   have hne : (flushBytes true (s.buf ++ [0])).2 ≠ [] := flush_rest_ne _ _ (by simp)
   have hne' : (flushBytes true (s.buf ++ [0])).2.isEmpty = false := by simpa using hne
-  simp [closeFile, ho, hw, ht, write_text s [0] hw hb, closeStream, flush, hb, wstep, wclose,
+  simp [closeFile, closeFileWith, ho, hw, ht, write_text s [0] hw hb, closeStream, closeStreamWith, flush, hb, wstep, wclose,
     flushBytes_small _ hle, hne', putRecord]
 
 /-- every history of `write` calls on a text file, then CLOSE, puts exactly `textRecs cs` on the tape -/
@@ -480,7 +480,7 @@ theorem writeFile_spec (s : St) (f : File) (hf : fileOk f) (ho : s.isOpen = fals
     rw [this]
     simp [fileRecs, bodyRecs, annot1, ht, hb, newLast, openedW, closedW]
   · -- binary file
-    simp [writeFile, openWrite, ho, hn', ha, ht, putRecord, write, flush, hb, closeFile, closeStream,
+    simp [writeFile, openWrite, ho, hn', ha, ht, putRecord, write, flush, hb, closeFile, closeFileWith, closeStream, closeStreamWith,
       fileRecs, bodyRecs, hdrRec, annot1, newLast, closedW]
 
 theorem writeFiles_tape (fs : List File) : ∀ (s : St), (∀ f ∈ fs, fileOk f) → s.isOpen = false → s.ahead = [] →
@@ -616,5 +616,138 @@ theorem search_fails (req types : Bytes) :
       simp [skippedMsg, hdrOf, afterOpen]
     · rw [h4, hs']; simp [fileRecs, List.append_assoc]
     · rw [h5]; simp [afterOpen]
+
+/-- what a read-to-the-end leaves behind (buffer, complete flag, records left) does not depend on the
+    bytes collected so far nor on how much of the current buffer has been delivered -/
+theorem readLoop_none_indep (bin : Bool) (len : Nat) : ∀ (ahead : Tape) (c c' buf buf' : Bytes) (k : Bool),
+    (readLoop bin len none ahead c buf k).map (·.2) = (readLoop bin len none ahead c' buf' k).map (·.2) := by
+  intro ahead
+  induction ahead with
+  | nil =>
+    intro c c' buf buf' k
+    cases k
+    · rw [readLoop_none_nil, readLoop_none_nil]; rfl
+    · rw [readLoop_none_complete, readLoop_none_complete]; rfl
+  | cons r rest ih =>
+    intro c c' buf buf' k
+    cases k
+    · rw [readLoop_none_cons, readLoop_none_cons]
+      cases hfill : fillFrom bin len r with
+      | error e => rfl
+      | ok v => exact ih _ _ _ _ _
+    · rw [readLoop_none_complete, readLoop_none_complete]; rfl
+
+theorem readLoop_some_then_none (bin : Bool) (len n : Nat) : ∀ (ahead : Tape) (c buf : Bytes) (k : Bool)
+    (y b' : Bytes) (k' : Bool) (left : Tape),
+    readLoop bin len (some n) ahead c buf k = .ok (y, b', k', left) →
+    ∀ (c2 c3 : Bytes), (readLoop bin len none left c3 b' k').map (·.2)
+      = (readLoop bin len none ahead c2 buf k).map (·.2) := by
+  intro ahead
+  induction ahead with
+  | nil =>
+    intro c buf k y b' k' left h c2 c3
+    rw [readLoop.eq_def] at h
+    simp only [] at h
+    split at h
+    · simp only [Except.ok.injEq, Prod.mk.injEq] at h
+      obtain ⟨_, rfl, rfl, rfl⟩ := h
+      exact readLoop_none_indep bin len _ _ _ _ _ _
+    · simp only [Except.ok.injEq, Prod.mk.injEq] at h
+      obtain ⟨_, rfl, rfl, rfl⟩ := h
+      exact readLoop_none_indep bin len _ _ _ _ _ _
+  | cons r rest ih =>
+    intro c buf k y b' k' left h c2 c3
+    rw [readLoop.eq_def] at h
+    simp only [] at h
+    split at h
+    · simp only [Except.ok.injEq, Prod.mk.injEq] at h
+      obtain ⟨_, rfl, rfl, rfl⟩ := h
+      exact readLoop_none_indep bin len _ _ _ _ _ _
+    · rename_i hcond
+      have hk : k = false := by
+        cases k
+        · rfl
+        · simp at hcond
+      subst hk
+      rw [readLoop_none_cons]
+      cases hfill : fillFrom bin len r with
+      | error e => rw [hfill] at h; simp at h
+      | ok v =>
+        obtain ⟨nb, compl⟩ := v
+        rw [hfill] at h
+        simp only [] at h
+        exact ih _ _ _ _ _ _ _ h _ _
+
+/-- a history of partial reads (`INPUT$`, `LINE INPUT#` … each a `read(n)` of the stream) -/
+def reads : St → List Nat → R St
+  | s, [] => .ok s
+  | s, n :: ns =>
+    match Cassette.read s (some n) with
+    | .error e => .error e
+    | .ok (_, s') => reads s' ns
+
+/-- reading the open file to its end leaves exactly `post` ahead -/
+def Drains (s : St) (post : Tape) : Prop :=
+  ∃ x b k, readLoop (isBin s.ftype) s.length none s.ahead [] s.buf s.complete = .ok (x, b, k, post)
+
+theorem drains_read (s s' : St) (post : Tape) (n : Nat) (y : Bytes) (hd : Drains s post)
+    (hr : Cassette.read s (some n) = .ok (y, s')) :
+    Drains s' post ∧ s'.isOpen = s.isOpen ∧ s'.writing = s.writing ∧ s'.last = s.last := by
+  obtain ⟨x, b, k, hx⟩ := hd
+  unfold Cassette.read at hr
+  cases hl : readLoop (isBin s.ftype) s.length (some n) s.ahead [] s.buf s.complete with
+  | error e => rw [hl] at hr; simp at hr
+  | ok v =>
+    obtain ⟨y', b', k', left⟩ := v
+    rw [hl] at hr
+    simp only [Except.ok.injEq, Prod.mk.injEq] at hr
+    obtain ⟨_, rfl⟩ := hr
+    have h := readLoop_some_then_none _ _ _ _ _ _ _ _ _ _ _ hl [] []
+    rw [hx] at h
+    refine ⟨?_, rfl, rfl, rfl⟩
+    unfold Drains
+    simp only []
+    cases hn : readLoop (isBin s.ftype) s.length none left [] b' k' with
+    | error e => rw [hn] at h; simp [Except.map] at h
+    | ok w =>
+      obtain ⟨x', b2, k2, l2⟩ := w
+      rw [hn] at h
+      simp only [Except.map, Except.ok.injEq, Prod.mk.injEq] at h
+      obtain ⟨rfl, rfl, rfl⟩ := h
+      exact ⟨x', _, _, rfl⟩
+
+theorem drains_reads (ns : List Nat) : ∀ (s s' : St) (post : Tape), Drains s post → reads s ns = .ok s' →
+    Drains s' post ∧ s'.isOpen = s.isOpen ∧ s'.writing = s.writing ∧ s'.last = s.last := by
+  induction ns with
+  | nil =>
+    intro s s' post hd h
+    simp only [reads, Except.ok.injEq] at h
+    subst h; exact ⟨hd, rfl, rfl, rfl⟩
+  | cons n ns ih =>
+    intro s s' post hd h
+    simp only [reads] at h
+    cases hr : Cassette.read s (some n) with
+    | error e => rw [hr] at h; simp at h
+    | ok v =>
+      obtain ⟨y, s1⟩ := v
+      rw [hr] at h
+      simp only [] at h
+      obtain ⟨h1, h2, h3, h4⟩ := drains_read s s1 post n y hd hr
+      obtain ⟨g1, g2, g3, g4⟩ := ih s1 s' post h1 h
+      exact ⟨g1, g2.trans h2, g3.trans h3, g4.trans h4⟩
+
+/-- CLOSE of a file open for reading (repaired code): the rest of the file is played past -/
+theorem drains_close (s : St) (post : Tape) (hd : Drains s post) (ho : s.isOpen = true) (hw : s.writing = false) :
+    (closeFile true s).ahead = post ∧ (closeFile true s).isOpen = false ∧ (closeFile true s).buf = [] ∧
+    (closeFile true s).last = s.last := by
+  obtain ⟨x, b, k, hx⟩ := hd
+  simp [closeFile, closeFileWith, closeStreamWith, ho, hw, Cassette.read, hx]
+
+theorem drains_afterOpen (s : St) (d : Tape) (f : TFile) (post : Tape) (hf : f.wf) :
+    Drains (afterOpen s d f post) post :=
+  ⟨f.content, [], true, by simpa [afterOpen] using readLoop_body f post hf⟩
+
+theorem drains_complete (s : St) (h : s.complete = true) : Drains s s.ahead :=
+  ⟨[] ++ s.buf, [], true, by rw [h]; exact readLoop_none_complete _ _ _ _ _⟩
 
 end PcbV.CassetteLemmas
